@@ -126,8 +126,8 @@ def run(R):
               "pair sets must correspond; (c) every output equals the Lean model's. Non-trivial = at least two stable matchings "
               "(a) or some rejection happened (b).")
     R.assumptions = ["numpy argsort on a strict row = positions sorted by rank", "brute-force enumeration is the reference for 'all stable matchings'"]
-    nbrute = 1500 if R.thorough else 250
-    nrel = 3000 if R.thorough else 400
+    nbrute = 6000 if R.thorough else 250
+    nrel = 12000 if R.thorough else 400
     for oriented in (True, False):
         items = []
         for t in range(nbrute):
